@@ -39,6 +39,16 @@ func hangLimit() time.Duration {
 func hangBegin() { hangNote.Store(""); hangSince.Store(time.Now().UnixNano()) }
 func hangEnd()   { hangSince.Store(0) }
 
+// hangTouch restarts the clock of the scenario in progress. A scenario may consist of many
+// executions (C12 renders one message shape once per byte offset and fault mode, C09 parses one
+// stored message under hundreds of damages): the limit applies to each execution, not to their
+// sum. Called at the start of every bubble and of every parse.
+func hangTouch() {
+	if hangSince.Load() != 0 {
+		hangSince.Store(time.Now().UnixNano())
+	}
+}
+
 // startHangMonitor starts the watcher once per process. onHang runs on the watcher goroutine
 // while the hung goroutines are still where they are stuck; it must end the process.
 func startHangMonitor(onHang func(stacks string)) {
